@@ -23,6 +23,8 @@ class Pipeline:
         Z.ZMQContext.context = (None, 0)
         self.net = simnet.Net(e, max_steps=max_steps)
         self.net.horizon = horizon
+        # slow joiner, adversarial order: the request (PUSH) connection is up at once, the subscription (SUB) 40 ms later
+        self.net.conn_delay_fn = lambda sock: 40 if sock.kind == simnet.SUB else 0
         CLOCK.source = lambda: self.net.now
         FM.time = types.SimpleNamespace(time=lambda: self.net.now // 1000 if isinstance(self.net.now, int) else 0, sleep=lambda s: None)
         self.log = {}          # filter name -> list of process() inputs as {topic: seq}
